@@ -1585,7 +1585,7 @@ fn batch_check_groups(gs: &mut Vec<Group>, env: &Env) {
         // bad position: none (= n) or every position
         for pos in 0..=n {
             let has_bad = pos < n;
-            let modes: &[&str] = if n <= 9 { &["vec_uncompressed", "vec_compressed", "direct", "vec_projective"] } else if n <= 17 { &["vec_uncompressed", "direct", "vec_projective"] } else { &["vec_uncompressed", "direct"] };
+            let modes: &[&str] = if n <= 9 { &["vec_uncompressed", "vec_compressed", "direct", "vec_projective", "vec_of_vec", "vec_of_option", "vec_of_array", "vec_of_tuple"] } else if n <= 17 { &["vec_uncompressed", "direct", "vec_projective"] } else { &["vec_uncompressed", "direct"] };
             for &mode in modes {
                 let b = bases.clone();
                 let list = move || -> Vec<G1A> { (0..n).map(|i| if i == pos { bad } else { b.aff[i] }).collect() };
@@ -1598,11 +1598,34 @@ fn batch_check_groups(gs: &mut Vec<Group>, env: &Env) {
                     true,
                     |r: &Result<Vec<G1A>, String>| match r {
                         Ok(v) => [b"OK:".to_vec(), ser_c(v)].concat(),
-                        Err(e) => format!("ERR:{e}").into_bytes(),
+                        // the error text is not part of the value: both builds may name a different offending element
+                        Err(_) => b"ERR".to_vec(),
                     },
                     move || -> Result<Vec<G1A>, String> {
                         let v = list();
                         match mode {
+                            // nested containers reach Valid::batch_check through flat_map / par_bridge
+                            "vec_of_vec" => {
+                                let h = v.len() / 2;
+                                let vv: Vec<Vec<G1A>> = vec![v[..h].to_vec(), Vec::new(), v[h..].to_vec()];
+                                let bytes = ser_c(&vv);
+                                Vec::<Vec<G1A>>::deserialize_with_mode(&bytes[..], Compress::No, Validate::Yes).map(|w| w.concat()).map_err(|e| format!("{e:?}"))
+                            }
+                            "vec_of_option" => {
+                                let vo: Vec<Option<G1A>> = v.iter().flat_map(|p| [None, Some(*p)]).collect();
+                                let bytes = ser_c(&vo);
+                                Vec::<Option<G1A>>::deserialize_with_mode(&bytes[..], Compress::No, Validate::Yes).map(|w| w.into_iter().flatten().collect()).map_err(|e| format!("{e:?}"))
+                            }
+                            "vec_of_array" => {
+                                let va: Vec<[G1A; 2]> = v.iter().map(|p| [*p, G1A::generator()]).collect();
+                                let bytes = ser_c(&va);
+                                Vec::<[G1A; 2]>::deserialize_with_mode(&bytes[..], Compress::No, Validate::Yes).map(|w| w.iter().map(|a| a[0]).collect()).map_err(|e| format!("{e:?}"))
+                            }
+                            "vec_of_tuple" => {
+                                let vt: Vec<(u8, G1A)> = v.iter().enumerate().map(|(i, p)| (i as u8, *p)).collect();
+                                let bytes = ser_c(&vt);
+                                Vec::<(u8, G1A)>::deserialize_with_mode(&bytes[..], Compress::No, Validate::Yes).map(|w| w.iter().map(|a| a.1).collect()).map_err(|e| format!("{e:?}"))
+                            }
                             "direct" => G1A::batch_check(v.iter()).map(|_| v.clone()).map_err(|e| format!("{e:?}")),
                             "vec_projective" => {
                                 // encodings of projective points are affine encodings
@@ -1928,22 +1951,88 @@ fn build_groups(env: &Env) -> Vec<Group> {
     normalize_groups::<ark_ed_on_bls12_381::EdwardsProjective>(&mut gs, "ed_on_bls12_381", env, te_affine_ref);
     let ks: Vec<usize> = (0..=9).collect();
     pairing_groups::<ark_bls12_381::Bls12_381>(&mut gs, "bls12_381", &ks, true, 9);
-    // F8 (known finding of C06): MNT Miller loops panic on the identity of G2 - identities are not fed to them here
-    pairing_groups::<ark_mnt4_298::MNT4_298>(&mut gs, "mnt4_298", &ks, false, 9);
+    pairing_groups::<ark_mnt4_298::MNT4_298>(&mut gs, "mnt4_298", &ks, true, 9);
     // the other multi_miller_loop implementations with parallel chunks (cross-build + reference)
     let ks2: Vec<usize> = if env.quick { vec![0, 1, 4, 5, 9] } else { ks.clone() };
     pairing_groups::<ark_bn254::Bn254>(&mut gs, "bn254", &ks2, true, 9);
-    pairing_groups::<ark_mnt6_298::MNT6_298>(&mut gs, "mnt6_298", &ks2, false, 9);
-    // F7 (known finding of C06): BW6 multi_miller_loop is wrong for more than 4 pairs in BOTH builds; the bilinearity
-    // reference is applied up to 4 pairs only, larger inputs are compared across builds / pool sizes
-    pairing_groups::<ark_bw6_761::BW6_761>(&mut gs, "bw6_761", &ks2, true, 4);
+    pairing_groups::<ark_mnt6_298::MNT6_298>(&mut gs, "mnt6_298", &ks2, true, 9);
+    pairing_groups::<ark_bw6_761::BW6_761>(&mut gs, "bw6_761", &ks2, true, 9);
     batch_check_groups(&mut gs, env);
+    batch_check_groups_te(&mut gs, env);
     gs
+}
+
+/// the same for a twisted Edwards element type (cofactor 8: the order-2 point (0,-1) and G + (0,-1) are outside the subgroup),
+/// one and two invalid members
+fn batch_check_groups_te(gs: &mut Vec<Group>, env: &Env) {
+    type EA = ark_ed_on_bls12_381::EdwardsAffine;
+    type EP = ark_ed_on_bls12_381::EdwardsProjective;
+    let bases = make_bases::<EP>(40);
+    let t2 = EA::new_unchecked(ark_ed_on_bls12_381::Fq::zero(), -ark_ed_on_bls12_381::Fq::from(1u64));
+    let bad: EA = (EP::from(t2) + EP::generator()).into_affine();
+    let r = <ark_ed_on_bls12_381::Fr as PrimeField>::MODULUS;
+    assert!(bad.is_on_curve() && !smul(&EP::from(bad), r.as_ref()).is_zero(), "harness: G + (0,-1) must lie outside the subgroup");
+    let ns: Vec<usize> = if env.quick { vec![0, 1, 2, 3, 5, 8, 9, 16, 17, 33] } else { vec![0, 1, 2, 3, 4, 5, 7, 8, 9, 15, 16, 17, 31, 32, 33] };
+    let mut cells = Vec::new();
+    for n in ns {
+        for pos in 0..=n {
+            for two in [false, true] {
+                let pos2 = n.saturating_sub(1 + pos / 2);
+                if two && (pos >= n || pos2 == pos) {
+                    continue;
+                }
+                let has_bad = pos < n;
+                for mode in ["vec_uncompressed", "direct", "vec_projective"] {
+                    let b = bases.clone();
+                    let list = move || -> Vec<EA> { (0..n).map(|i| if i == pos || (two && i == pos2) { bad } else { b.aff[i] }).collect() };
+                    let list2 = list.clone();
+                    add(
+                        &mut cells,
+                        format!("batch_check/ed_on_bls12_381/{mode}/n={n}/bad={}{}", if has_bad { pos.to_string() } else { "none".into() }, if two { format!("+{pos2}") } else { String::new() }),
+                        n,
+                        Meta::Plain,
+                        true,
+                        |r: &Result<Vec<EA>, String>| match r {
+                            Ok(v) => [b"OK:".to_vec(), ser_c(v)].concat(),
+                            Err(_) => b"ERR".to_vec(),
+                        },
+                        move || -> Result<Vec<EA>, String> {
+                            let v = list();
+                            match mode {
+                                "direct" => EA::batch_check(v.iter()).map(|_| v.clone()).map_err(|e| format!("{e:?}")),
+                                "vec_projective" => {
+                                    let bytes = ser_c(&v);
+                                    Vec::<EP>::deserialize_with_mode(&bytes[..], Compress::No, Validate::Yes).map(|w| w.iter().map(|p| p.into_affine()).collect()).map_err(|e| format!("{e:?}"))
+                                }
+                                _ => {
+                                    let bytes = ser_c(&v);
+                                    Vec::<EA>::deserialize_with_mode(&bytes[..], Compress::No, Validate::Yes).map_err(|e| format!("{e:?}"))
+                                }
+                            }
+                        },
+                        move |out: &Result<Vec<EA>, String>| match out {
+                            Ok(_) if has_bad => Err(format!("accepted a vector whose element {pos} is outside the subgroup")),
+                            Ok(v) => {
+                                if *v == list2() {
+                                    Ok(())
+                                } else {
+                                    Err("decoded vector differs from the encoded one".into())
+                                }
+                            }
+                            Err(_) if has_bad => Ok(()),
+                            Err(e) => Err(format!("rejected a vector of valid points: {e}")),
+                        },
+                    );
+                }
+            }
+        }
+    }
+    gs.push(Group { name: "batch_check/ed_on_bls12_381".into(), cells });
 }
 
 fn pool_sizes(quick: bool) -> Vec<usize> {
     if quick {
-        vec![1, 2, 3, 4, 7, 8, 16, 17]
+        vec![1, 2, 3, 4, 5, 6, 7, 8, 16, 17]
     } else {
         (1..=16).chain([17, 24, 32, 64]).collect()
     }
